@@ -51,6 +51,8 @@ type daemon struct {
 	obeh     []string
 	nonJSON  int
 	mismatch []string
+	blocked  int // main requests the daemon is sitting on (stall, flat, forever)
+	gone     int // ... whose connection the client closed while the case was still running
 	done     chan struct{}
 }
 
@@ -59,7 +61,7 @@ var applicable = map[string]map[string]bool{
 	"update": {"ok": true, "errBody": true, "nonJson": true, "drop": true, "stall": true, "commitDrop": true},
 	"rm":     {"ok": true, "errBody": true, "nonJson": true, "drop": true, "stall": true, "commitDrop": true},
 	"add": {"ok": true, "errBody": true, "nonJson": true, "drop": true, "stall": true, "commitDrop": true,
-		"progOk": true, "progTrailer": true, "progStall": true, "flat": true, "progDrop": true},
+		"progOk": true, "progTrailer": true, "progStall": true, "flat": true, "progDrop": true, "progForever": true},
 }
 
 func hasR(p string) bool { return p == "recursive" || p == "both" }
@@ -87,10 +89,34 @@ func (d *daemon) nonJSONErr(w http.ResponseWriter) {
 	}
 }
 
+// block/unblock book-keep the main requests the daemon is sitting on, and
+// whether the client abandoned them (closed the connection) before the case ended.
+func (d *daemon) block() {
+	d.mu.Lock()
+	d.blocked++
+	d.mu.Unlock()
+}
+
+func (d *daemon) clientGone() {
+	select {
+	case <-d.done: // the case is over: the harness itself is closing connections
+	default:
+		d.mu.Lock()
+		d.gone++
+		d.mu.Unlock()
+	}
+}
+
 // wait blocks until the client goes away or the case ends.
-func (d *daemon) wait(r *http.Request) {
+func (d *daemon) wait(r *http.Request, main bool) {
+	if main {
+		d.block()
+	}
 	select {
 	case <-r.Context().Done():
+		if main {
+			d.clientGone()
+		}
 	case <-d.done:
 	}
 }
@@ -187,7 +213,7 @@ func (d *daemon) ServeHTTP(w http.ResponseWriter, r *http.Request) {
 	case "drop":
 		fail(func() { panic(http.ErrAbortHandler) })
 	case "stall":
-		fail(func() { d.wait(r); panic(http.ErrAbortHandler) })
+		fail(func() { d.wait(r, true); panic(http.ErrAbortHandler) })
 	default:
 		switch short {
 		case "ls":
@@ -325,6 +351,8 @@ func (d *daemon) ServeHTTP(w http.ResponseWriter, r *http.Request) {
 				fail(func() { d.stream(w, r, target, []int{0, 1, 2}, "stall", "") })
 			case "flat":
 				fail(func() { d.stream(w, r, target, []int{0, 2}, "flat", "") })
+			case "progForever":
+				fail(func() { d.stream(w, r, target, []int{0, 1, 2}, "forever", "") })
 			case "progDrop":
 				fail(func() { d.stream(w, r, target, []int{0, 1}, "drop", "") })
 			case "commitDrop": // pinned, but the connection breaks before the final message
@@ -374,20 +402,32 @@ func (d *daemon) stream(w http.ResponseWriter, r *http.Request, target string, m
 	case "trailer":
 		h.Set("X-Stream-Error", trailer)
 	case "stall":
-		d.wait(r)
+		d.wait(r, true)
 		panic(http.ErrAbortHandler)
-	case "flat":
+	case "flat", "forever":
+		// the same value again and again / ever increasing values, every 40 ms
 		last := msgs[len(msgs)-1]
 		t := time.NewTicker(40 * time.Millisecond)
 		defer t.Stop()
+		d.block()
 		for {
 			select {
 			case <-r.Context().Done():
+				d.clientGone()
 				panic(http.ErrAbortHandler)
 			case <-d.done:
 				panic(http.ErrAbortHandler)
 			case <-t.C:
+				if end == "forever" {
+					last++
+				}
 				if emit(last) != nil {
+					// the write failed: the client closed the connection
+					select {
+					case <-r.Context().Done():
+					case <-time.After(200 * time.Millisecond):
+					}
+					d.clientGone()
 					panic(http.ErrAbortHandler)
 				}
 			}
@@ -418,7 +458,7 @@ func (d *daemon) swarmConnect(w http.ResponseWriter, r *http.Request, args []str
 	case "drop":
 		panic(http.ErrAbortHandler)
 	case "stall":
-		d.wait(r)
+		d.wait(r, false)
 		panic(http.ErrAbortHandler)
 	default:
 		w.Header().Set("Content-Type", "application/json")
